@@ -1995,6 +1995,10 @@ def _recover_task_level(ctx):
                     tids = z3.Select(I._elem_array(child, "id", z3.IntSort()), sg)
                     tst = z3.Select(I._elem_array(child, "status", I.typer.sort_of(("enum", WS))), sg)
                     cands = [(f[1] + (f[3],)) for f in frames if f[0] == child] + [p_ for p_ in I.st.index_terms.get(child, [])]
+                    # the explicit witness: the position the pushed task id was read from (ids[stage index][task index])
+                    tt = tid.t
+                    if z3.is_select(tt) and z3.is_select(tt.arg(0)):
+                        cands.append((sframe[0][3], tt.arg(1)))
                     tid_arr = I._elem_array(child, "id", z3.IntSort())
                     tst_arr = I._elem_array(child, "status", I.typer.sort_of(("enum", WS)))
                     disj = [z3.And(I._select(tid_arr, p_) == tid.t, I._select(tst_arr, p_) == status(I, want)) for p_ in cands if len(p_) == 2]
@@ -2003,6 +2007,16 @@ def _recover_task_level(ctx):
                     ex_ = z3.Exists([kq], z3.And(kq >= 0, kq < n_t, I._select(tid_arr, (sframe[0][3], kq)) == tid.t,
                                                  I._select(tst_arr, (sframe[0][3], kq)) == status(I, want)))
                     goals.append((f"push.{b.data['cls']}.task-in-status-{want}", z3.Implies(g, z3.Or(ex_, *disj))))
+                    if b.data["cls"] == "StartTask":
+                        # tasks of a stage run in order: the sweep may only start the FIRST task that has not started
+                        jq = z3.Int("task_j")
+                        firsts = [z3.And(I._select(tid_arr, p_) == tid.t, I._select(tst_arr, p_) == status(I, want),
+                                         z3.ForAll([jq], z3.Implies(z3.And(jq >= 0, jq < p_[-1]), I._select(tst_arr, (p_[0], jq)) != status(I, want))))
+                                  for p_ in cands if len(p_) == 2]
+                        sgi = sframe[0][3]
+                        ex_first = z3.Exists([kq], z3.And(kq >= 0, kq < n_t, I._select(tid_arr, (sgi, kq)) == tid.t, I._select(tst_arr, (sgi, kq)) == status(I, want),
+                                                          z3.ForAll([jq], z3.Implies(z3.And(jq >= 0, jq < kq), I._select(tst_arr, (sgi, jq)) != status(I, want)))))
+                        goals.append(("push.StartTask.is-the-first-not-started-task", z3.Implies(g, z3.Or(ex_first, *firsts))))
                 goals.append((f"push.{b.data['cls']}.pending-was-checked-false",
                               z3.Implies(g, z3.Or(*[z3.And(I.ops.eq(q.data["args"][0], tid), z3.Not(q.data["result"])) for q in queries]) if queries else FALSE)))
     return goals
